@@ -58,6 +58,11 @@ static size_t forge(uint8_t *out, int what, int64_t arg, const uint8_t ver[2])
 		rng_bytes(&r, out + 5, 64);
 		memset(out + 5 + 64, 0x5a, n - 64);
 		return 5 + n; }
+	case 8: /* a well-formed CertificateRequest (certificate types {ecdsa_sign}, no CA names) nobody sent */
+		out[0] = TLS_record_handshake; out[1] = ver[0]; out[2] = ver[1]; out[3] = 0; out[4] = 8;
+		out[5] = TLS_handshake_certificate_request; out[6] = 0; out[7] = 0; out[8] = 4;
+		out[9] = 1; out[10] = (arg & 1) ? 1 : 64; out[11] = 0; out[12] = 0;
+		return 13;
 	case 7: { /* a record of legal but large size, with more bytes of the same flight already queued behind it:
 		   * a receiver that reads the body in pieces must not ask for more than what is left of it */
 		static const size_t body[] = { 9300, 12000, 16384, 17000, 18432 };
@@ -392,7 +397,7 @@ static void gen_fault_hs(Fault *f, Rng *g, const HonestOut *o)
 		break;
 	case F_INJECT:
 		if (rng_chance(g, 1, 8)) f->rec = -1;
-		f->a = rng_below(g, 8);
+		f->a = rng_below(g, 9);
 		f->b = (int64_t)(rng_u64(g) >> 40);
 		if (f->a == 0) f->b = (int64_t[]){ 0, 10, 20, 40, 47, 80 }[rng_below(g, 6)];
 		break;
@@ -546,6 +551,18 @@ static void gen_fault_data(Fault *f, Rng *g, const HonestOut *o, int proto)
 	static const int w[F_NKINDS] = { 0, 48, 7, 8, 6, 6, 7, 5, 4, 0, 9, 0 };
 	int kind = pick_weighted(g, w, F_NKINDS);
 	Cand *t = &c[rng_below(g, (uint32_t)n)];
+	{
+		/* a direction that carries more than 257 records is rare and is there for one reason: spend a
+		 * quarter of its plans on replays across a multiple of 256 records (target in its tail) */
+		int per[2] = { 0, 0 }, tail[2] = { -1, -1 };
+		for (int i = 0; i < n; i++) if (++per[c[i].dir] > 257 && tail[c[i].dir] < 0) tail[c[i].dir] = i;
+		int ld = per[0] > 257 ? 0 : per[1] > 257 ? 1 : -1;
+		if (ld >= 0 && rng_chance(g, 1, 4)) {
+			int cand[2 * MAX_REC], nc = 0;
+			for (int i = tail[ld]; i < n; i++) if (c[i].dir == ld) cand[nc++] = i;
+			if (nc) { kind = F_REPLAY; t = &c[cand[rng_below(g, (uint32_t)nc)]]; }
+		}
+	}
 	f->kind = kind; f->dir = t->dir; f->rec = t->rec;
 	size_t len = t->len;
 	if (kind == F_EVIL) f->a = rng_below(g, 54);
@@ -584,6 +601,12 @@ static void gen_fault_data(Fault *f, Rng *g, const HonestOut *o, int proto)
 		f->off = (int64_t)(len - k);
 		f->bit = rng_below(g, 2);
 		f->a = rng_below(g, 2);
+		if (rng_chance(g, 1, 4) && len > 22) {
+			/* the sender dies early in the record: right after the header, inside the first block, half way */
+			size_t early[] = { 5, 6, 5 + 16, len / 2 };
+			f->off = (int64_t)early[rng_below(g, 4)];
+			f->bit = 0; f->a = 1;
+		}
 		break; }
 	case F_EXTEND: {
 		static const int add[] = { 1, 15, 16, 17, 32 };
@@ -598,6 +621,12 @@ static void gen_fault_data(Fault *f, Rng *g, const HonestOut *o, int proto)
 			if (!o->recs[f->dir][i].in_hs) idxs[cnt++] = i;
 		f->a = f->dir;
 		f->b = cnt ? idxs[rng_below(g, (uint32_t)cnt)] : f->rec;
+		if (cnt > 257 && rng_chance(g, 1, 2)) {
+			/* long-lived direction: replay the record sent exactly 256 (512, ...) records before the one the receiver
+			 * expects next — equal in every byte of the sequence number but the ones above the lowest */
+			int back = 256 * (1 + (int)rng_below(g, (uint32_t)((cnt - 1) / 256)));
+			f->b = idxs[cnt - back];         /* idxs[cnt-1] == f->rec; the receiver expects number cnt next */
+		}
 		if (rng_chance(g, 1, 3)) f->c = (int64_t[]){ 8, 16, 24, 31, 32, 40, 48, 56, 63 }[rng_below(g, 9)];   /* replay across 2^c records */
 		if (rng_chance(g, 1, 6)) {            /* or a protected handshake record (old keys) */
 			int h = 0;
